@@ -37,6 +37,9 @@ func genC06(rng *rand.Rand, tier string) *core.Plan {
 		for i := 0; i < ns; i++ {
 			p.Ops = append(p.Ops, core.Op{K: []string{"sync", "gc"}[rng.Intn(2)]})
 		}
+		// a second group is created while the others work (a follower that joins): it exists from the moment
+		// the call returns, and the queue ack must never be beyond its acknowledged position afterwards
+		p.Cfg["late_group"] = rng.Intn(2)
 		return p
 	}
 	p.Cfg["preempt_pm"] = 0
@@ -336,6 +339,7 @@ func runC06conc(c *core.RunCtx) {
 	invoked, done := int64(0), int64(0)
 	msgs := map[int64]int64{}
 	running := 4
+	var late queue.ConsumerGroup
 	sim.OnStep = func() {
 		a, cs := cg.AcknowledgedSeq(), cg.ConsumedSeq()
 		if a > cs {
@@ -397,6 +401,20 @@ func runC06conc(c *core.RunCtx) {
 		}
 		running--
 	})
+	if c.Plan.C("late_group", 0) == 1 {
+		running++
+		sim.Spawn("creator", func() {
+			sim.YieldNow()
+			g, err := fq.GetOrCreateConsumerGroup("g1")
+			if err != nil {
+				c.Anomaly("late group: %v", err)
+			} else {
+				late = g
+				sim.Probe("group-created-concurrently")
+			}
+			running--
+		})
+	}
 	sim.Spawn("maint", func() {
 		prevQ := int64(-1)
 		for _, op := range maint {
@@ -412,6 +430,9 @@ func runC06conc(c *core.RunCtx) {
 				if qa > prevQ && qa > after {
 					c.Violate("C06/queue-ack-beyond-group-ack", "concurrent: queue ack %d, group acknowledged between %d and %d", qa, before, after)
 				}
+				if l := late; l != nil && qa > l.AcknowledgedSeq() {
+					c.Violate("C06/queue-ack-beyond-group-ack", "concurrent: queue ack %d is beyond the acknowledged position %d of the group created meanwhile", qa, l.AcknowledgedSeq())
+				}
 				prevQ = qa
 			} else {
 				fq.Queue().GC()
@@ -424,6 +445,14 @@ func runC06conc(c *core.RunCtx) {
 	sim.OnStep = nil
 	if c.Violated() {
 		return
+	}
+	if late != nil {
+		// (the group never acknowledges anything, so a queue ack that overtook it stays beyond it; the queue's
+		// accessor takes a lock and cannot be read from the step monitor)
+		if qa, la := fq.Queue().AcknowledgedSeq(), late.AcknowledgedSeq(); qa > la {
+			c.Violate("C06/queue-ack-beyond-group-ack", "concurrent: queue ack %d is beyond the acknowledged position %d of the group created meanwhile", qa, la)
+			return
+		}
 	}
 	// final: everything above the queue ack still readable
 	q := fq.Queue()
